@@ -671,6 +671,39 @@ fn add_contradiction(r: &mut Rng, p: &mut Program, binary: bool) -> bool {
         return false;
     }
     let ui = *r.pick(&cands);
+    if r.chance(1, 3) {
+        // a value that is refused, after which the shim simply carries on with the real one:
+        // the response must be exactly what the program describes
+        if let Unit::Rows(ru) = &mut p.units[ui] {
+            let row = r.usize_below(ru.rows.len());
+            let col = r.usize_below(ru.cols.len());
+            let bad = if binary {
+                if r.coin() {
+                    ru.cols[col].flags |= 0x01;
+                    let c = ru.cols[col].clone();
+                    for rw in ru.rows.iter_mut() {
+                        if is_null_cell(&rw[col]) {
+                            rw[col] = gen_cell_for_col(r, c.coltype, c.flags, false);
+                        }
+                    }
+                    Cell::Null(1)
+                } else {
+                    wrong_kind_cell(r, ru.cols[col].coltype)
+                }
+            } else if r.coin() {
+                Cell::Myc(MycV::Time(true, 0, 1, 2, 3, 0)) // negative TIME: documented as refused
+            } else {
+                Cell::Myc(MycV::Date(2021, 13, 40, 0, 0, 0, 0)) // not a calendar date
+            };
+            ru.write_row = false;
+            ru.contra = Some(Contra::RefusedRetry {
+                row: row as u32,
+                col: col as u32,
+                bad,
+            });
+        }
+        return true;
+    }
     if let Unit::Rows(ru) = &mut p.units[ui] {
         let row = r.usize_below(ru.rows.len()) as u32;
         let kind = if binary { r.below(4) } else { r.below(2) };
